@@ -5,6 +5,7 @@
 -/
 import NextestModel.Lemmas.Dispatcher
 import NextestModel.Thm.C08
+import NextestModel.Thm.C07
 namespace NextestModel.C02
 open NextestModel.Dispatcher
 
@@ -90,5 +91,40 @@ theorem uncancelled_complete_counterexample :
         [.poll, .complete 0, .complete 2, .complete 3, .complete 4] = some s' ∧
       s'.ended = true ∧ s'.queued = 1 := by
   refine ⟨_, rfl, ?_, ?_⟩ <;> decide
+
+/-! ## One unit: `run_test_instance` reports at most one final result, for exactly the attempts it made -/
+
+section unit
+open NextestModel.Attempts NextestModel.Classify
+
+/-- **one final result**: whatever the test's processes do and whatever the dispatcher acknowledges, a unit sends at most one
+    `Finished`; it is the last thing the unit does; and its statuses are exactly the outcomes of the attempts that were spawned,
+    1, 2, … in order — no attempt is reported that was not run, none that ran is missing -/
+theorem one_final_result (p : Policy) (env : Env) (evs : List XEv) (h : runTestInstance p env = some evs) :
+    finisheds evs = [] ∨
+    (finisheds evs = [(spawns evs).map env.outcome] ∧ evs.getLast? = some (.finished ((spawns evs).map env.outcome)) ∧ spawns evs ≠ []) := by
+  unfold runTestInstance at h
+  split at h
+  · simp at h; subst h; exact Or.inl rfl
+  · cases hl : loop (p.count + 1) env (p.count + 1) 0 [] (delays p) with
+    | none => simp [hl] at h
+    | some rest =>
+      simp [hl] at h; subst h
+      simp only [finisheds, spawns]
+      rcases loop_finished _ env _ 0 [] _ rest (by omega) hl with h0 | ⟨h1, h2, h3, _⟩
+      · exact Or.inl h0
+      · refine Or.inr ⟨by simpa using h1, ?_, h3⟩
+        have hne : rest ≠ [] := by intro e; simp [e] at h2
+        cases rest with
+        | nil => exact absurd rfl hne
+        | cons x xs => rw [List.getLast?_cons_cons]; simpa using h2
+
+/-- a unit whose start is refused (the run is already being cancelled) spawns nothing and reports nothing -/
+theorem refused_start_runs_nothing (p : Policy) (env : Env) (evs : List XEv) (h : runTestInstance p env = some evs)
+    (hs : env.ackStart = false) : spawns evs = [] ∧ finisheds evs = [] := by
+  unfold runTestInstance at h
+  simp [hs] at h; subst h; exact ⟨rfl, rfl⟩
+
+end unit
 
 end NextestModel.C02
